@@ -197,6 +197,14 @@ func (c *CheckCtx) evaluate() {
 		for _, u := range jr.Undecided {
 			c.Undecided = append(c.Undecided, fmt.Sprintf("obligation=%s reason=%q", jr.Job.Label, u))
 		}
+		// natively confirmed non-termination (termination probe)
+		for _, rf := range jr.Hangs {
+			obl := jr.Job.Label + "/terminates"
+			path, err := writeReplay(rf, c.P.ID, obl)
+			if err == nil {
+				c.Violations = append(c.Violations, Violation{obl, path, rf.Detail})
+			}
+		}
 		// vacuity guard: a job none of whose paths reaches its end decides nothing
 		if jr.Err == "" && jr.OkPaths == 0 && jr.PanicPaths == 0 && len(jr.Undecided) == 0 {
 			c.Undecided = append(c.Undecided, fmt.Sprintf("obligation=%s reason=%q", jr.Job.Label,
@@ -708,6 +716,17 @@ func cmdReplay(args []string) int {
 	}
 	defer L.Close()
 	race := len(rf.Failed) > 0 && rf.Failed[0] == "norace"
+	if len(rf.Failed) > 0 && rf.Failed[0] == "terminates" {
+		L.watchdog = "10s"
+		res, _, _ := L.RunNative(rf.Dir, []string{args[0]}, false)
+		if len(res) == 1 && res[0].Hang {
+			fmt.Printf("harness=%s params=%v: did not return within the 10 s watchdog\n", rf.Harness, rf.Params)
+			fmt.Printf("VIOLATION property=%s replay=%s\n", rf.Property, args[0])
+			return 1
+		}
+		fmt.Printf("harness=%s params=%v: returned within the watchdog\n", rf.Harness, rf.Params)
+		return 0
+	}
 	res, out, err := L.RunNative(rf.Dir, []string{args[0]}, race)
 	if race {
 		if strings.Contains(out, "DATA RACE") {
